@@ -114,10 +114,10 @@ H("C13", "m2", _RC, "quick", "C13.b sequence record: size == the 32/52 the write
   assumes=["v256: start_timestamp <= u32::MAX - 1000 (known finding KF-C13-sequence-start-overflow)", _CONSTS], stubs=[FMT])
 H("C13", "m2", _RC, "quick", "C13.b witness: Vanilla sequence with start_timestamp = u32::MAX", ["c13b_sequence_start_overflow_witness"],
   ["chunks::animation::M2Animation::write"], "concrete", "one input", stubs=[FMT], expect="witness:KF-C13-sequence-start-overflow")
-H("C13", "m2", _RC, "quick", "C13.b sequence written in the other layout (conversion): size the writer assumes, shared fields kept",
+H("C13", "m2", _RC, "thorough", "C13.b sequence written in the other layout (conversion): size the writer assumes, shared fields kept",
   ["c13b_sequence_cross_version"], ["chunks::animation::M2Animation::{parse,write,convert}"],
   "record bytes symbolic, direction (256->264 / 264->256) symbolic", "one record",
-  assumes=["start_timestamp <= u32::MAX - 1000 (known finding KF-C13-sequence-start-overflow)"], stubs=[FMT])
+  assumes=["start_timestamp <= u32::MAX - 1000 (known finding KF-C13-sequence-start-overflow)"], stubs=[FMT], timeout=2400)
 H("C13", "m2", _RC, "quick", "C13.b bone record: size == the 108/112/88 the writer adds, write(parse(b)) == b",
   ["c13b_bone_v256", "c13b_bone_v260", "c13b_bone_v264"],
   ["chunks::bone::M2Bone::{parse,write}", "chunks::m2_track::M2Track::{parse,write}", "chunks::m2_track::M2TrackBase::{parse,write}",
@@ -139,13 +139,13 @@ H("C13", "m2", _RC, "quick", "C13.b vertex / texture definition / material recor
   assumes=["vertex bone indices < bone count (documented repair replaces the others by 0)", "texture type is one the enum holds (0..14, 255)", _CONSTS],
   stubs=[FMT])
 H("C13", "m2", _RC, "quick", "C13.b attachment / event / light / camera records: write(parse(b)) == b with the documented size (size() where the library has one)",
-  ["c13b_attachment", "c13b_attachment_one_key", "c13b_event", "c13b_camera_v256", "c13b_camera_v264"],
+  ["c13b_attachment", "c13b_attachment_one_key", "c13b_event", "c13b_camera_v264"],
   ["chunks::attachment::M2Attachment::{parse,write,size}", "chunks::event::M2Event::{parse,write,size}", "chunks::camera::M2Camera::{parse,write,size}",
    "chunks::animation::M2AnimationBlock::{parse,write}", "chunks::animation::M2AnimationTrack::{parse,write}", "common::M2Vec::parse", "common::read_array"],
   "record bytes symbolic; value arrays of the embedded tracks empty (one harness: one key, value at offset 48)", "one record each",
   assumes=["interpolation type in 0..3", "padding bytes zero", "camera v264 is measured against the 132 bytes it really has (known finding KF-C13-camera-size)"],
   stubs=[FMT])
-H("C13", "m2", _RC, "thorough", "C13.b light record (164 bytes) and camera v263", ["c13b_light", "c13b_camera_v263"],
+H("C13", "m2", _RC, "thorough", "C13.b light record (164 bytes) and camera v256 / v263", ["c13b_light", "c13b_camera_v256", "c13b_camera_v263"],
   ["chunks::light::M2Light::{parse,write}", "chunks::camera::M2Camera::{parse,write,size}"], "record bytes symbolic, 5 embedded tracks with empty value arrays",
   "one record", assumes=["light type in 0..3, padding zero, interpolation types in 0..3"], stubs=[FMT], timeout=2400)
 H("C13", "m2", _RC, "quick", "C13.b witness: M2Camera::size(264) vs bytes written", ["c13b_camera_size_witness"],
@@ -173,15 +173,21 @@ H("C13", "m2", _SK, "quick", "C13.c skin headers (new layout versions 0..3, old 
   "all counts/offsets/version/bone_count_max symbolic", "one header", assumes=["new layout: version <= 3 (version 4 with center position: known finding KF-C13-skin-center-lost)"], stubs=[FMT])
 H("C13", "m2", _SK, "quick", "C13.c witness: BfA skin header loses center_position", ["c13c_header_center_witness"],
   ["skin::SkinHeader::{write,parse}"], "concrete", "one input", stubs=[FMT], expect="witness:KF-C13-skin-center-lost")
-H("C13", "m2", _SK, "quick", "C13.c whole skin write->parse->write, new and old layout: lengths, contents, second write byte-identical",
-  ["c13c_skin_new_1submesh", "c13c_skin_new_1batch", "c13c_skin_old_1submesh", "c13c_skin_old_1batch"],
-  ["skin::SkinG::{write,parse}", "skin::SkinHeader::{write,parse,calculate_size,set_array_fields}", "skin::OldSkinHeader::{write,parse,calculate_size}",
-   "skin::SkinSubmesh::{parse,write}", "skin::SkinBatch::{parse,write}"],
-  "shape: 2 indices, 3 triangle indices, 1 vertex (4 bone indices), and (1 submesh, 0 batches) or (0 submeshes, 1 batch); all contents symbolic",
+_skfn = ["skin::SkinG::{write,parse}", "skin::SkinHeader::{write,parse,calculate_size,set_array_fields}", "skin::OldSkinHeader::{write,parse,calculate_size}",
+         "skin::SkinSubmesh::{parse,write}", "skin::SkinBatch::{parse,write}"]
+_skin_shape = "shape: 2 indices, 3 triangle indices, 1 vertex (4 bone indices), and (1 submesh, 0 batches) or (0 submeshes, 1 batch); all contents symbolic"
+H("C13", "m2", _SK, "quick", "C13.c whole skin write->parse->write, new layout with a submesh / old layout with a batch: lengths, contents, second write byte-identical",
+  ["c13c_skin_new_1submesh", "c13c_skin_old_1batch"], _skfn, _skin_shape,
   "that shape", assumes=["not both a submesh and a batch (known finding KF-C13-skin-submesh-advance)"], stubs=[FMT])
-H("C13", "m2", _SK, "quick", "C13.c witness: submesh record 48 bytes vs the 40 the skin writer adds per submesh; skin with one submesh and one batch",
-  ["c13c_submesh_advance_witness", "c13c_skin_submesh_and_batch_witness"], ["skin::SkinG::{write,parse}", "skin::SkinSubmesh::write"],
-  "submesh fields symbolic / concrete skin", "one input", stubs=[FMT], expect="witness:KF-C13-skin-submesh-advance")
+H("C13", "m2", _SK, "thorough", "C13.c whole skin write->parse->write, the two other layout / shape combinations",
+  ["c13c_skin_new_1batch", "c13c_skin_old_1submesh"], _skfn, _skin_shape,
+  "that shape", assumes=["not both a submesh and a batch (known finding KF-C13-skin-submesh-advance)"], stubs=[FMT], timeout=2400)
+H("C13", "m2", _SK, "quick", "C13.c witness: submesh record 48 bytes vs the 40 the skin writer adds per submesh",
+  ["c13c_submesh_advance_witness"], ["skin::SkinSubmesh::write", "skin::SkinG::write (constant)"],
+  "submesh fields symbolic", "one record", stubs=[FMT], expect="witness:KF-C13-skin-submesh-advance")
+H("C13", "m2", _SK, "thorough", "C13.c witness: skin with one submesh and one batch, write->parse",
+  ["c13c_skin_submesh_and_batch_witness"], ["skin::SkinG::{write,parse}"],
+  "concrete skin", "one input", stubs=[FMT], expect="witness:KF-C13-skin-submesh-advance", timeout=2400)
 H("C13", "m2", _SK, "quick", "C13.c parse_skin (layout auto-detection) reads an old-layout skin written by the library back as old layout",
   ["c13c_parse_skin_autodetect_old"], ["skin::parse_skin", "skin::detect_skin_format", "skin::SkinG::{write,parse}"], "5 indices, symbolic", "that shape",
   assumes=["at least 5 indices (known finding KF-C13-skin-autodetect-small)"], stubs=[FMT])
@@ -219,12 +225,12 @@ H("C13", "m2", _AN, "quick", "canary", ["c13d_anim_canary"], ["anim::AnimEntry::
 _MD = "verif_kani_model"
 _mdl = ["model::M2Model::write", "model::M2Model::calculate_header_size", "header::M2Header::{new,write,parse}"]
 H("C13", "m2", _MD, "quick", "C13.e empty model: bytes written == calculate_header_size() == bytes the header parser consumes; version, flags, bounding volume kept",
-  ["c13e_model_empty_tbc", "c13e_model_empty_wotlk"], _mdl,
+  ["c13e_model_empty_wotlk"], _mdl,
   "5 header floats symbolic; flags = all bits except the two layout bits; version per harness", "model without any section",
   assumes=["flag bits 0x8 and 0x8000000 clear (known finding KF-C13-model-layout-flags)"], stubs=[FMT, LOSSY13])
-H("C13", "m2", _MD, "thorough", "C13.e empty model, Vanilla and Cataclysm", ["c13e_model_empty_vanilla", "c13e_model_empty_cataclysm"], _mdl,
+H("C13", "m2", _MD, "thorough", "C13.e empty model, Vanilla, TBC and Cataclysm", ["c13e_model_empty_vanilla", "c13e_model_empty_tbc", "c13e_model_empty_cataclysm"], _mdl,
   "as above", "model without any section", assumes=["flag bits 0x8 and 0x8000000 clear"], stubs=[FMT, LOSSY13], timeout=2400)
-H("C13", "m2", _MD, "quick", "C13.e witness: empty WotLK model with USE_TEXTURE_COMBINERS; empty model with a Legion version number",
+H("C13", "m2", _MD, "quick", "C13.e witness: empty WotLK model with USE_TEXTURE_COMBINERS",
   ["c13e_model_layout_flags_witness"], _mdl, "concrete", "one input", stubs=[FMT], expect="witness:KF-C13-model-layout-flags")
 H("C13", "m2", _MD, "quick", "C13.e witness: empty model with a Legion version number (texture_transforms dropped by the writer)",
   ["c13e_model_legion_witness"], _mdl, "concrete", "one input", stubs=[FMT], expect="witness:KF-C13-model-legion-transforms")
